@@ -38,8 +38,9 @@ LEVEL = "model_checking"
 ASSUMPTIONS = [
     "HarfBuzz (uharfbuzz) is the reference reader of the compiled bytes; glyph sequences are fed as plane-15 PUA code points through a synthetic cmap so that no Unicode normalisation / default-ignorable / mark logic of the shaper interferes",
     "control-loop: the environment alphabet is {pack ok, hb error x3 exception types, overflow of a lookup-level or a subtable-level record (same as / different from the previous one), resolver ok / failed}; exceptions of other types and failures of table.compile itself are not modelled; termination is not claimed (the HB_FT <-> FT_FALLBACK cycle is cut at the horizon)",
-    "overflow: one overflowing structure per table; sizes are those of the grid in bounds(); rules are read back completely unless the unit rule says 'stride'",
-    "corpus: sequences up to the stated length over glyphs occurring in the table plus one outsider, default script/language plus every feature switched on together and one by one; longer contexts are not enumerated",
+    "overflow: one overflowing structure per table; sizes are those of the grid in bounds(); every rule is read back (no stride); a compile that needs more than 32 overflow-resolution steps for these tables (<= 4 x 64k) is reported as non-terminating",
+    "control-loop: 'the same overflow record as last time' is produced by handing compile() the same OverflowErrorRecord object (the class defines no __eq__, so the real packers, which build a fresh record per overflow, never trigger that branch)",
+    "corpus: sequences up to the stated length over glyphs occurring in the table plus one outsider, every script of the table with its default language system, once with the shaper's default features and once with all features of the table switched on together; longer contexts, other language systems and single-feature combinations are not enumerated; in the quick tier pairs over alphabets larger than 128 glyphs use a 128-glyph window rotated by VERIF_SEED",
     "USE_HARFBUZZ_REPACKER=True behaves like None when uharfbuzz is importable (it is, here); the ImportError branch is covered only by the control-loop unit",
 ]
 
